@@ -353,6 +353,30 @@ def oracle(ck: Check, tier, deep):
                                    f"(max difference {np.abs(ti.IM - tf.IM).max() if ti.IM.shape == tf.IM.shape else 'shape'})")
         elif ref.shape != tf.IM.shape or np.abs(ref - tf.IM).max() > 1e-12 * 60:
             ck.violation(dict(sig, clause="transform-centres-with-set_center"), rep, "Transform(origin=…).IM is not set_center of the (odd-width) float image")
+    # centring is separable: both axes at once = one axis, then the other — for every mix of whole-pixel and fractional coordinates
+    # (a whole-pixel axis is not interpolated, not padded or cut for fractional ends, whatever the other axis needs)
+    for _ in range(60 if not deep else 600):
+        r, c = (int(v) for v in rng.integers(6, 16, size=2))
+        im = rng.random((r, c))
+        kinds = int(rng.integers(0, 3))
+        o0 = float(rng.integers(1, r - 1)) if kinds != 1 else float(rng.uniform(1, r - 2))
+        o1 = float(rng.integers(1, c - 1)) if kinds == 1 else float(rng.uniform(1, c - 2))
+        if kinds == 2 and rng.random() < 0.5:
+            o0, o1 = int(o0), o1                      # (an int next to a float)
+        crop = ["maintain_size", "valid_region", "maintain_data"][int(rng.integers(0, 3))]
+        order = int(rng.integers(1, 4))
+        ck.count(("S.separable", kinds, crop, order), suite="S.frac")
+        rep = dict(shape=[r, c], origin=[o0, o1], crop=crop, order=order, image=im.tolist())
+        sig = dict(site="set_center", kind="fractional", clause="separable")
+        try:
+            both = set_center(im, (o0, o1), crop=crop, order=order)
+            seq = set_center(set_center(im, (o0, None), crop=crop, order=order), (None, o1), crop=crop, order=order)
+        except Exception as e:
+            ck.violation(dict(sig, clause="exception"), rep, f"{type(e).__name__}: {e}")
+            continue
+        if both.shape != seq.shape or np.abs(both - seq).max() > 1e-12:
+            ck.violation(sig, rep, f"set_center(im, {(o0, o1)}, crop={crop!r}) has shape {both.shape}; centring the rows and then the columns gives "
+                                   f"{seq.shape}" + ("" if both.shape != seq.shape else f" and differs by {np.abs(both - seq).max():.3g}"))
     # integer images given to set_center itself: with a fractional origin the interpolation is done on their values (total intensity
     # preserved exactly for order 1), not rounded back to the integer dtype
     for _ in range(20 if not deep else 150):
@@ -416,10 +440,18 @@ def oracle(ck: Check, tier, deep):
         by, bx = rng.uniform(1.5, r - 2.5), rng.uniform(1.5, c - 3.5)
         im = np.exp(-((yy - by) ** 2 + (xx - bx) ** 2) / 2.0) + 1e-3
         kind = int(rng.integers(0, 5))
-        # (explicit origins well inside what is left after the trimming of odd_size / square)
-        side = min(r, c) - 1
-        meth = ["image_center", "com", "convolution", (int(rng.integers(1, side - 1)), int(rng.integers(1, side - 1))),
-                (float(rng.uniform(1, side - 2)), float(rng.uniform(1, side - 2)))][kind]
+        # (explicit origins are coordinates in the input image; chosen well inside the block that the odd_size / square trimming keeps,
+        # read off a labelled image centred about its own middle)
+        try:
+            kept = center_image(np.arange(1.0, r * c + 1).reshape(r, c), method="image_center", odd_size=odd, square=sq)
+            r_lo, c_lo = divmod(int(kept[0, 0]) - 1, c)
+            r_hi, c_hi = divmod(int(kept[-1, -1]) - 1, c)
+        except Exception:
+            continue
+        if r_hi - r_lo < 3 or c_hi - c_lo < 3:
+            continue
+        meth = ["image_center", "com", "convolution", (int(rng.integers(r_lo + 1, r_hi)), int(rng.integers(c_lo + 1, c_hi))),
+                (float(rng.uniform(r_lo + 1, r_hi - 1)), float(rng.uniform(c_lo + 1, c_hi - 1)))][kind]
         ck.count(("S.flags-crop", crop, str(axes), kind, odd, sq), suite="S.flags")
         sig = dict(site="center_image", odd_size=odd, square=sq, crop=crop)
         rep = dict(shape=[r, c], odd_size=odd, square=sq, crop=crop, axes=axes, method=meth if isinstance(meth, str) else list(meth), blob=[by, bx])
